@@ -85,9 +85,9 @@ macro "tr_simp" "[" ts:Lean.Parser.Tactic.simpLemma,* "]" : tactic => `(tactic| 
   all_goals try (tr_fix; tr_simp1 [$ts,*])
   all_goals try (tr_fix; tr_simp1 [$ts,*])
   -- a condition that the case hypotheses do not determine (a rewrite of the source may test something else): split on it
-  all_goals try (split_cond <;> (first | (exfalso; omega) | (tr_simp1 [$ts,*]; all_goals try (tr_fix; tr_simp1 [$ts,*]))))
-  all_goals try (split_cond <;> (first | (exfalso; omega) | (tr_simp1 [$ts,*]; all_goals try (tr_fix; tr_simp1 [$ts,*]))))
-  all_goals try (split_cond <;> (first | (exfalso; omega) | (tr_simp1 [$ts,*]; all_goals try (tr_fix; tr_simp1 [$ts,*]))))
+  all_goals try (split_cond <;> (first | (exfalso; omega) | (exfalso; simp_all; done) | (tr_simp1 [$ts,*]; all_goals try (tr_fix; tr_simp1 [$ts,*]))))
+  all_goals try (split_cond <;> (first | (exfalso; omega) | (exfalso; simp_all; done) | (tr_simp1 [$ts,*]; all_goals try (tr_fix; tr_simp1 [$ts,*]))))
+  all_goals try (split_cond <;> (first | (exfalso; omega) | (exfalso; simp_all; done) | (tr_simp1 [$ts,*]; all_goals try (tr_fix; tr_simp1 [$ts,*]))))
   all_goals try (first | (simp; done) | (refine ⟨_, _, ⟨rfl, rfl⟩, ?_⟩; first | (simp; done) | (simp; all_goals (congr <;> omega)) | (and_intros <;> first | rfl | (congr <;> omega)) | (simp; all_goals (apply List.ext_getElem?; intro i; grind))))))
 
 set_option hygiene false in
@@ -97,9 +97,9 @@ macro "tr_once" "[" ts:Lean.Parser.Tactic.simpLemma,* "]" : tactic => `(tactic| 
   tr_simp1 [$ts,*] at hG
   all_goals try (tr_fix at hG; tr_simp1 [$ts,*] at hG)
   all_goals try (tr_fix at hG; tr_simp1 [$ts,*] at hG)
-  all_goals try (split_cond at hG <;> (first | (exfalso; omega) | (tr_simp1 [$ts,*] at hG; all_goals try (tr_fix at hG; tr_simp1 [$ts,*] at hG))))
-  all_goals try (split_cond at hG <;> (first | (exfalso; omega) | (tr_simp1 [$ts,*] at hG; all_goals try (tr_fix at hG; tr_simp1 [$ts,*] at hG))))
-  all_goals try (split_cond at hG <;> (first | (exfalso; omega) | (tr_simp1 [$ts,*] at hG; all_goals try (tr_fix at hG; tr_simp1 [$ts,*] at hG))))
+  all_goals try (split_cond at hG <;> (first | (exfalso; omega) | (exfalso; simp_all; done) | (tr_simp1 [$ts,*] at hG; all_goals try (tr_fix at hG; tr_simp1 [$ts,*] at hG))))
+  all_goals try (split_cond at hG <;> (first | (exfalso; omega) | (exfalso; simp_all; done) | (tr_simp1 [$ts,*] at hG; all_goals try (tr_fix at hG; tr_simp1 [$ts,*] at hG))))
+  all_goals try (split_cond at hG <;> (first | (exfalso; omega) | (exfalso; simp_all; done) | (tr_simp1 [$ts,*] at hG; all_goals try (tr_fix at hG; tr_simp1 [$ts,*] at hG))))
   all_goals (subst hG; tr_simp [$ts,*])))
 
 set_option hygiene false in
